@@ -13,7 +13,32 @@ import (
 // C04 - compile once, render many: execution never alters the compiled template.
 // Also hosts the deterministic program/context-pool generator shared with C05.
 
-var detCtxVars = []string{"d", "maybe()", "flag", "s", "lst", "n", "z_str", "z_ints", "z_strs", "z_struct.Name", "z_int", "z_true", "z_f64"}
+var detCtxVars = []string{"d", "maybe()", "flag", "s", "lst", "n", "z_str", "z_ints", "z_strs", "z_struct.Name", "z_int", "z_true", "z_f64", "rec.Name", "rec.Label", "rec.Email"}
+
+// records of different Go types behind one name: the same fields at different positions, the same method with
+// value and pointer receivers
+type DetRecA struct {
+	ID    int
+	Name  string
+	Email string
+}
+
+func (r DetRecA) Label() string   { return "A:" + r.Name }
+func (r *DetRecA) PLabel() string { return "pA:" + r.Name }
+
+type DetRecB struct{ Name string }
+
+func (r *DetRecB) Label() string { return "B:" + r.Name }
+
+type DetRecC struct {
+	Email string
+	Extra []int
+	Name  string
+	ID    int
+}
+
+func (r DetRecC) PLabel() string { return "C:" + r.Name }
+func (r DetRecC) Label() string  { return "C:" + r.Email }
 
 // detPool returns the pool of contexts of one case. Contexts 0 and 4 are equal.
 // yield != nil makes the context functions yield/sleep (C05: interleaving variation).
@@ -37,20 +62,22 @@ func detPool(inc string, yield func()) []pongo2.Context {
 		}
 		return ctx
 	}
+	pool0 := mk("A<a>", 5, false, []string{"x", "y", "z"}, true)
+	pool0["rec"] = DetRecA{1, "na<m>e", "e@x"}
+	pool1 := mk("B&b", 0, true, []string{"q"}, false)
+	pool1["rec"] = DetRecB{"nb"}
+	pool4 := mk("A<a>", 5, false, []string{"x", "y", "z"}, true)
+	pool4["rec"] = DetRecA{1, "na<m>e", "e@x"}
+	pool5 := mk("Dd", 1, true, []string{"1", "1", "2", "2", "1"}, false)
+	pool5["rec"] = &DetRecA{2, "pa", "pe@x"}
 	swapped := mk("Cc", 2, false, []string{}, true)
+	swapped["rec"] = DetRecC{"ce@x", nil, "nc", 3}
 	// same names, other dynamic types: value <-> pointer, slice <-> array, int <-> float
 	swapped["z_struct"], swapped["z_pstruct"] = swapped["z_pstruct"], swapped["z_struct"]
 	swapped["z_ints"] = [3]int{3, 1, 2}
 	swapped["z_int"] = 42.0
 	swapped["z_stringer"] = &ZPStr{V: "Cc"}
-	return []pongo2.Context{
-		mk("A<a>", 5, false, []string{"x", "y", "z"}, true),
-		mk("B&b", 0, true, []string{"q"}, false),
-		swapped,
-		nil,
-		mk("A<a>", 5, false, []string{"x", "y", "z"}, true),
-		mk("Dd", 1, true, []string{"1", "1", "2", "2", "1"}, false),
-	}
+	return []pongo2.Context{pool0, pool1, swapped, nil, pool4, pool5}
 }
 
 type detProg struct {
@@ -78,6 +105,8 @@ func detProgram(r *Rng) detProg {
 			"{{ f_ctx3(s, \"b\", s) }}|{{ f_ctx5(s, 1, 2, n, 4) }}|{{ f_ctxv(1, n, 3) }}|{{ f_ctx3(\"x\", \"y\", \"z\") }}",
 			"[{{ leak }}]{% set leak = \"L\" %}{% with other=1 %}{% ssi \"/ssipart.tpl\" parsed %}{% endwith %}",
 			"{{ -1 + 2 }}{{ -2.5 * 2 }}{% for i in lst %}{{ -3 + n }}{% endfor %}",
+			"<{{ rec.Name }}|{{ rec.Email }}|{{ rec.ID }}|{{ rec.Label }}|{{ rec.PLabel }}|{{ rec.Extra }}>",
+			"{{ n * 2 }}|{{ d * 1.5 }}|{{ z_int * 2 }}|{{ z_int / 4 }}|{{ z_f64 * n }}|{% for x in z_ints %}{{ x * d }};{% endfor %}",
 		}
 		k := 1 + r.Intn(3)
 		for i := 0; i < k; i++ {
